@@ -112,6 +112,17 @@ class C20(Spec):
         after = runs[0][-1][2]
         if any(re.match(r"D w \S+ \S+ .*\?", d) for d in after):
             fails.append(Failure("subscription-not-released", f"{http[0][:100]}: {[d for d in after if '?' in d and d.startswith('D w')][:1]}"))
+        # … and, absolutely: once the request is over, every database counts exactly the sessions that are still open and bound to it
+        # (the request's own session is gone), and publishes that number
+        full = None
+        for (inp, rest, dump) in runs[0]:
+            if dump and dump != ["D ="]: full = dump if full is None or any(d.startswith("D db ") for d in dump) else full
+        for d in (after or []):
+            m = re.match(r"D db (\S+) id=\d+ strat=\S+ conns=(\d+)", d)
+            if not m or m.group(1) == "$admin": continue
+            bound = len([x for x in after if re.match(rf"D sess \d+ auth=\d db={re.escape(m.group(1))} ", x)])
+            if int(m.group(2)) != bound:
+                fails.append(Failure("connection-count-not-released", f"{http[0][:100]}: {d} but {bound} open session(s) are bound to it")); break
         ca = [d for d in after if d.startswith("D db t ")]; cb = [d for d in runs[1][-1][2] if d.startswith("D db t ")]
         if ca != cb:
             fails.append(Failure("connection-count-not-released", f"{http[0][:100]}: {ca} vs {cb}"))
